@@ -319,7 +319,7 @@ def run(ctx, exe, tier, seed, cases=None, maxdim=None):
                 break
     ref = make_reftable(ctx)
     v2 = os.path.join(_tests_dir(), "compat-V2.vnacal")
-    rc, out, err = vlib.sh([exe, "count-legacy"])
+    rc, out, err = vlib.sh([exe, "count-legacy"], env=_env(ctx))
     nleg = int(out.strip())
     _run_mode(ctx, exe, "legacy versions", "legacy",
               lambda a, b: ["legacy", v2, ref, str(a), str(b)], nleg, stats,
